@@ -171,25 +171,36 @@ Print Assumptions C06_cel_iter_switch.
 Print Assumptions C06_cel_iterv_partial.
 Print Assumptions C06_cel_iterv_refuted.
 
-(* CylinderSegment wrapper: B and H are row-wise; J and M are NOT with the translated placement
-   of the all-on-surface exit (known finding), and would be with the exit after their branches *)
-Theorem C06_cylseg_BH : forall {W} (wzero : W) wadd mul_mu0 div_mu0 e1 e2 f (rows : list csrow),
+(* CylinderSegment wrapper: B and H are row-wise.  J and M are row-wise iff the translated flags
+   say that the all-on-surface exit does not precede their branch or that the branch zeroes the
+   on-surface rows too; otherwise (the tree as it is while the finding is open) they are refuted *)
+Theorem C06_cylseg_BH : forall {W} (wzero : W) wadd mul_mu0 div_mu0 e1 e2 z1 z2 f (rows : list csrow),
   f = FB \/ f = FH ->
-  cylseg wzero wadd mul_mu0 div_mu0 e1 e2 f rows
-  = flat_map (fun r => cylseg wzero wadd mul_mu0 div_mu0 e1 e2 f [r]) rows.
+  cylseg wzero wadd mul_mu0 div_mu0 e1 e2 z1 z2 f rows
+  = flat_map (fun r => cylseg wzero wadd mul_mu0 div_mu0 e1 e2 z1 z2 f [r]) rows.
 Proof. exact @cylseg_BH_rowwise. Qed.
+Theorem C06_cylseg_JM : forall {W} (wzero : W) wadd mul_mu0 div_mu0 f (rows : list csrow),
+  div_mu0 wzero = wzero ->
+  (f = FJ /\ jm_rowwise_flag cylseg_exit_before_J cylseg_J_zero_on_surface = true) \/
+  (f = FM /\ jm_rowwise_flag cylseg_exit_before_M cylseg_M_zero_on_surface = true) ->
+  let cs := cylseg wzero wadd mul_mu0 div_mu0 cylseg_exit_before_J cylseg_exit_before_M
+                   cylseg_J_zero_on_surface cylseg_M_zero_on_surface in
+  cs f rows = flat_map (fun r => cs f [r]) rows.
+Proof. exact @cylseg_JM_gen_rowwise. Qed.
 Theorem C06_cylseg_J_refuted :
-  zcyl FJ [surf_row; far_row] <> flat_map (fun r => zcyl FJ [r]) [surf_row; far_row].
-Proof. exact cylseg_J_rowwise_refuted. Qed.
+  jm_rowwise_flag cylseg_exit_before_J cylseg_J_zero_on_surface = false ->
+  zcyl_gen FJ [surf_row; far_row] <> flat_map (fun r => zcyl_gen FJ [r]) [surf_row; far_row].
+Proof. exact cylseg_J_gen_refuted. Qed.
 Theorem C06_cylseg_M_refuted :
-  zcyl FM [surf_row; far_row] <> flat_map (fun r => zcyl FM [r]) [surf_row; far_row].
-Proof. exact cylseg_M_rowwise_refuted. Qed.
-Theorem C06_cylseg_JM_if_exit_after : forall {W} (wzero : W) wadd mul_mu0 div_mu0 f (rows : list csrow),
-  f = FJ \/ f = FM ->
-  cylseg wzero wadd mul_mu0 div_mu0 false false f rows
-  = flat_map (fun r => cylseg wzero wadd mul_mu0 div_mu0 false false f [r]) rows.
-Proof. exact @cylseg_JM_rowwise_when_exit_after. Qed.
+  jm_rowwise_flag cylseg_exit_before_M cylseg_M_zero_on_surface = false ->
+  zcyl_gen FM [surf_row; far_row] <> flat_map (fun r => zcyl_gen FM [r]) [surf_row; far_row].
+Proof. exact cylseg_M_gen_refuted. Qed.
+(* which of the two is live on this run *)
+Definition C06_cylseg_JM_status :=
+  Eval vm_compute in (jm_rowwise_flag cylseg_exit_before_J cylseg_J_zero_on_surface,
+                      jm_rowwise_flag cylseg_exit_before_M cylseg_M_zero_on_surface).
+Print C06_cylseg_JM_status.
 Print Assumptions C06_cylseg_BH.
+Print Assumptions C06_cylseg_JM.
 Print Assumptions C06_cylseg_J_refuted.
 Print Assumptions C06_cylseg_M_refuted.
-Print Assumptions C06_cylseg_JM_if_exit_after.
